@@ -34,8 +34,10 @@ print("| id | change (author's summary, abridged) | what it needs | our checks |
 print("|----|------|------|------|------|")
 for name, summ, needs, det, suite, demo, rnd in rows:
     def ab(s, n):
-        s = " ".join(str(s).split())
+        s = " ".join(str(s).split()).replace("|", "/")
         return (s[:n] + "…") if len(s) > n else s
     dets = "; ".join(f"{c}: {'/'.join(v)}" for c, v in det.items()) or "—"
-    sc = "yes" if ("0 failed" in suite and "exit=0 demo_with_change_exit=101" in demo.replace("demo_without_change_", "")) else (ab(suite + " " + demo, 60) or "pending")
+    mw = re.search(r"demo_without_change_exit=(\d+) demo_with_change_exit=(\d+)", demo)
+    ok = "0 failed" in suite and "build_errors=0" in suite and mw is not None and mw.group(1) == "0" and mw.group(2) != "0"
+    sc = "yes" if ok else (ab(suite + " " + demo, 60) or "pending")
     print(f"| {name}{' (r%d)' % rnd if rnd and rnd != 1 else ''} | {ab(summ, 170)} | {ab(needs, 150)} | {dets} | {sc} |")
